@@ -77,6 +77,11 @@ def build_tree(rng, base):
     os.symlink("existing.txt", os.path.join(up, "link-file-in"))
     os.symlink(os.path.join(base, "nowhere"), os.path.join(up, "dangling"))
     os.symlink(os.path.join(base, "outside", "newfile-via-dangling.txt"), os.path.join(up, "dangling-out-file"))
+    # links that cannot be resolved (a two-link loop, a self-referencing link): a path that enters one and leaves
+    # it with ".." must still have the rest of its components resolved before containment is judged
+    os.symlink("loop-b", os.path.join(up, "loop-a"))
+    os.symlink("loop-a", os.path.join(up, "loop-b"))
+    os.symlink("selfloop", os.path.join(up, "selfloop"))
     return up
 
 
@@ -107,6 +112,13 @@ PATHS = [
     ("/dangling", "dangling"),
     ("/dangling/x.txt", "dangling-child"),
     ("/dangling-out-file", "dangling-to-outside-file"),
+    ("/loop-a/../link-out/victim.txt", "loop-then-symlink-dir-out-existing"),
+    ("/loop-a/../link-out/created-via-loop.txt", "loop-then-symlink-dir-out-new"),
+    ("/selfloop/../rel-link-out/secret.txt", "loop-then-rel-symlink-dir-out"),
+    ("/loop-a/x/../../link-file-out", "loop-then-symlink-file-out"),
+    ("/loop-a/../sub/via-loop.gmi", "loop-then-inside-new"),
+    ("/loop-a", "loop-itself"),
+    ("/loop-a/child.txt", "loop-child"),
     ("ABS", "absolute-existing"),
     ("ABSNEW", "absolute-new"),
     ("/%2e%2e/outside/victim.txt", "encoded-dotdot"),
